@@ -21,10 +21,14 @@
    operation (NodeHistory.step_all): new, gnode_after/before, gnode_add/node_add,
    gnode_insert/node_insert at every position code, unlink, node_move (merge of a
    child list or a local list into a list with overlapping names, recursively),
-   node/list/tree clone, clear, destroy, gnode_swap, gnode_switch, gnode_relink,
-   traversal and the final clean-up (unlink + destroy of every node without parent). *)
+   node/list/tree clone — also when it fails on the way (a value that refuses to be
+   cloned, the k-th allocation of the call) —, clear, destroy, gnode_swap,
+   gnode_switch, gnode_relink, traversal (plain, and as a handler sees it: depth,
+   early end, level order through mpt_gnode_samelevel / mpt_gnode_sublevel),
+   node_find / node_next / node_locate from any node, the entry points called with a
+   NULL node, and the final clean-up (unlink + destroy of every node without parent). *)
 From MptV Require Import C14.NodeModel C14.NodeSpec C14.NodeRep C14.NodeInv C14.NodeRefine
-  C14.NodeFree C14.NodeClone C14.NodeHistory C14.NodeCheck C14.NodeEnd.
+  C14.NodeFree C14.NodeClone C14.NodeLevel C14.NodeHistory C14.NodeCheck C14.NodeEnd.
 From Coq Require Import List ZArith.
 Import ListNotations.
 
@@ -84,20 +88,48 @@ Proof. exact end_releases_all. Qed.
    instances of C14_step_refines_forest, stated for reference through [sstep]:
    [sfreed] grows by [ids_f (tkids tx)] resp. [ids_t tx]. *)
 
-(* Clone: mpt_list_clone of the list starting at [x] creates a new top-level list
-   whose shape (names, values, nesting, order — identities erased) equals the
-   source's at every depth; the heap afterwards represents the old forest plus that
-   list (so every clone names its parent, next/prev agree, ...), and no existing
-   cell was changed. *)
+(* Clone: mpt_list_clone of the list starting at [x], whatever fails on the way ([k] = the
+   number of the allocation that fails, 0 = none; values with code 3 refuse to be
+   cloned): EITHER it creates a new top-level list whose shape (names, values, nesting,
+   order — identities erased) equals the source's at every depth, and the heap
+   afterwards represents the old forest plus that list (so every clone names its
+   parent, next/prev agree, ...), OR it returns NULL and the heap represents the old
+   forest alone: every cell it had allocated is in the free list, once.  No existing
+   cell is changed either way. *)
 Theorem C14_clone_equal_shape :
-  forall h s x c l1 tx l2,
+  forall h s x c l1 tx l2 k,
     inv h s -> focus x (lists s) = Some (c, l1, tx, l2) ->
-    exists h' l',
-      mstep h (OLClone x) = ROk (h', OutP (Some (nextid h))) /\
-      inv h' (mkS (lists s ++ [l']) (nextid h') (sfreed s)) /\
-      shape_l l' = shape_l (tx :: l2) /\
-      (forall i, i < nextid h -> cells h' i = cells h i).
+    exists h',
+      (forall i, i < nextid h -> cells h' i = cells h i) /\
+      ((exists l',
+          mstep h (OLClone x k) = ROk (h', OutP (Some (nextid h))) /\
+          inv h' (mkS (lists s ++ [l']) (nextid h') (sfreed s)) /\
+          shape_l l' = shape_l (tx :: l2))
+       \/
+       (mstep h (OLClone x k) = ROk (h', OutP None) /\
+        inv h' (mkS (lists s) (nextid h') (seq (nextid h) (nextid h' - nextid h) ++ sfreed s)))).
 Proof. exact clone_shape. Qed.
+
+(* ... and the first case it is when nothing fails: no allocation failure and no value
+   below that refuses to be cloned. *)
+Theorem C14_clone_succeeds :
+  forall h s x c l1 tx l2,
+    inv h s -> focus x (lists s) = Some (c, l1, tx, l2) -> forallb clonable_t (tx :: l2) = true ->
+    exists h', mstep h (OLClone x 0) = ROk (h', OutP (Some (nextid h))).
+Proof. exact clone_succeeds. Qed.
+
+(* Traversal as the handler sees it: mpt_gnode_traverse from node [x] in order [o]
+   ([None] = level order) calls the handler for exactly the nodes, with the depths, in
+   the sequence [swalk] lists for the forest that starts at [x] — pre/in/post order of
+   each tree, or level by level ([level]: level 0 is the list itself, level u+1 the
+   children of level u in order) — up to the call it answers with non-zero ([cutk]),
+   returns that node, and leaves the heap alone. *)
+Theorem C14_walk_calls :
+  forall h s x c l1 tx l2 o fl k,
+    inv h s -> focus x (lists s) = Some (c, l1, tx, l2) ->
+    mstep h (OWalk o fl x k) =
+    ROk (h, OutW (fst (cutk k (swalk o fl (tx :: l2)))) (snd (cutk k (swalk o fl (tx :: l2))))).
+Proof. exact walk_calls. Qed.
 
 (* ---- non-vacuity ---- *)
 (* the empty heap represents the empty forest: every history may start here *)
@@ -109,7 +141,7 @@ Proof. exact inv_empty. Qed.
 Definition ex_ops : list op :=
   [ONew 1 0; ONew 2 1; ONew 1 2; ONew 3 0; ONew 2 0;
    OIns false 0 0%Z 1; OIns true 0 (-1)%Z 2; OIns false 1 1%Z 3; OAdd true 1 0%Z 4;
-   OTClone 0; OUnlink 1; OAfter (Some 2) (Some 1); OClear 5; ODestroy 5; OTrav InOrder 3 0; OEnd].
+   OTClone 0 0; OUnlink 1; OAfter (Some 2) (Some 1); OClear 5; ODestroy 5; OTrav InOrder 3 0; OEnd].
 
 (* a merge with overlapping names at two levels (what mpt_parse_node does):
    source 0c(1a(2a,3b),4b)  into  5c(6a(7b))  *)
@@ -167,6 +199,36 @@ Example C14_ex_swap_switch :
   [[T 0 1 0 [T 2 3 0 [T 3 1 1 []]; T 1 2 0 [T 4 2 1 []]]]].
 Proof. vm_compute. split; reflexivity. Qed.
 
+(* level order on 0a(2(5,6(9)),3) 1b(4(7(8))): levels [0,1] [2,3,4] [5,6,7] [9,8]; with a handler
+   that stops at its 9th call; the same forest in in-order from node 4 *)
+Definition ex_forest : list op :=
+  [ONew 1 0; ONew 2 0; OAfter (Some 0) (Some 1); ONew 1 0; ONew 2 0; ONew 3 0; OIns false 0 0%Z 2; OIns false 0 0%Z 3;
+   OIns false 1 0%Z 4; ONew 1 0; ONew 2 0; ONew 3 0; OIns false 2 0%Z 5; OIns false 2 0%Z 6; OIns false 4 0%Z 7;
+   ONew 1 0; ONew 2 0; OIns false 7 0%Z 8; OIns false 6 0%Z 9].
+Example C14_ex_level_order :
+  map fst (skipn 19 (srun empty_sstate (ex_forest ++ [OWalk None 3 0 0; OWalk None 1 0 9; OWalk (Some InOrder) 3 4 0]))) =
+  [OutW [(0,0); (1,0); (2,1); (3,1); (4,1); (5,2); (6,2); (7,2); (9,3); (8,3)] None;
+   OutW [(3,1); (5,2); (9,3); (8,3)] None;
+   OutW [(8,2); (7,1); (4,0)] None] /\
+  map (option_map fst) (skipn 19 (mrun empty_heap (ex_forest ++ [OWalk None 3 0 9; OWalk (Some PreOrder) 2 0 3]))) =
+  [Some (OutW [(0,0); (1,0); (2,1); (3,1); (4,1); (5,2); (6,2); (7,2); (9,3)] (Some 9));
+   Some (OutW [(0,0); (2,1); (6,2)] (Some 6))].
+Proof. vm_compute. split; reflexivity. Qed.
+
+(* clones that fail: a value that cannot be cloned (3) deep in the tree, the 4th allocation; and
+   mpt_node_locate with the identifier of no node *)
+Example C14_ex_clone_fails :
+  let ops := [ONew 1 0; ONew 2 1; ONew 3 3; OIns false 0 0%Z 1; OIns false 1 0%Z 2; OTClone 0 0; OLClone 1 0;
+              ONew 1 0; OIns false 1 0%Z 6; OClear 1; OTClone 0 2; OTClone 0 0; OLocate 8 0%Z (Some 1);
+              OLocate 8 0%Z (Some 99); OEnd] in
+  map fst (skipn 5 (srun empty_sstate ops)) =
+  [OutP None; OutP None; OutP (Some 6); OutZ 0%Z; OutP None; OutP None; OutP (Some 8); OutP (Some 8); OutP None; OutZ 0%Z] /\
+  match nth 11 (mrun empty_heap ops) None with
+  | Some (OutP (Some 8), h) => wfcheck h = true /\ nextid h = 10 /\ length (freed h) = 6 /\ cells h 7 = None
+  | _ => False
+  end.
+Proof. vm_compute. repeat split; reflexivity. Qed.
+
 (* a refused destroy (node still linked) and a guard of the history language *)
 Example C14_ex_refusals :
   map fst (srun empty_sstate [ONew 1 0; ONew 2 0; OIns false 0 0%Z 1; ODestroy 1; OAfter (Some 1) (Some 0)])
@@ -180,3 +242,5 @@ Print Assumptions C14_wf_links.
 Print Assumptions C14_released_once.
 Print Assumptions C14_cleanup_releases_all.
 Print Assumptions C14_clone_equal_shape.
+Print Assumptions C14_clone_succeeds.
+Print Assumptions C14_walk_calls.
